@@ -1,5 +1,7 @@
 package res
 
+import "sync"
+
 type work struct {
 	s      *Service
 	wid    string // Worker ID for the work queue
@@ -9,12 +11,12 @@ type work struct {
 
 // startWorker starts a new resource worker that will listen for resources to
 // process requests on.
-func (s *Service) startWorker() {
+func (s *Service) startWorker(wg *sync.WaitGroup) {
 	vhook("wk.start")
 	s.mu.Lock()
 	vhook("wk.locked")
 	defer s.mu.Unlock()
-	defer s.wg.Done()
+	defer wg.Done()
 	defer vhook("wk.exit")
 	// workqueue being nil signals we the service is closing
 	for s.workqueue != nil {
